@@ -51,7 +51,22 @@ CHECKS['C13'] = dict(
          'calendar arithmetic are numeric: not decided.',
     note=ASSUME + '; the compared angle moves < 1.2 deg/day',
     technique='term-level modular-arithmetic (residue) analysis with seam-position case split')
-for _p in ['C02','C03','C04','C09','C10','C12','C14','C15','C16','C19']:
+CHECKS['C14'] = dict(
+    text='Structural clauses: inclusive day count (end-start)+1 whose signed->unsigned cast is clamped at 0; the range API iterates '
+         'start.iter_days().take(num_days()), calls the single-date API with unchanged params for exactly that date and stores it under '
+         'that date; partition blocks are [s, min(s+B-1,end)], next start s+B, B = ceil(days/count), guard s <= end. '
+         '`at most max(k,1) parts` is arithmetic on runtime sizes: not decided.',
+    note=ASSUME + '; chrono date arithmetic',
+    technique='abstract interpretation of the range functions + linear-form / lower-bound checks on the reconstructed terms')
+CHECKS['C15'] = dict(
+    text='Schedule-independent structural proof obligations on MIR: every Sender moved into a worker or dropped before the collector join '
+         '(typestate over every path), collector leaves its loop only on recv()=Err, workers call the sequential function on the shared '
+         'params/location and their own partition element and send that result exactly once, work list = unmodified partition(n) with '
+         'the tested n, collector only appends into the returned map. With C14 this gives equality with the sequential map under every '
+         'interleaving.',
+    note=ASSUME + '; mpsc channel closure and thread::scope join semantics; C14',
+    technique='move/drop typestate on per-path event traces from abstract interpretation + call/argument identity checks')
+for _p in ['C02','C03','C04','C09','C10','C12','C16','C19']:
     NA[_p] = 'check not yet registered in this commit (design in DESIGN.md §4; being built)'
 NA['C17'] = 'calendar equality over 3.65 M dates is arithmetic over runtime values (float floor, data-dependent search loops): no clause is visible in the shape of the code'
 NA['C20'] = 'metamorphic relation between numeric outputs through the whole ephemeris; the only structural fact behind it is not a necessary condition'
